@@ -38,6 +38,8 @@ Alphabet == <<
     LabelS("L1"), LabelS("L2"),
     Ret, RetE(V("a")), CallF >>
     \o [i \in 1..Len(Bodies) |-> Fun("ff", <<"p">>, Bodies[i])]
+    \* a parameter named like a global, and a call that does not supply it: the parameter is null, the global is not read
+    \o << Fun("ff", <<"a">>, <<LogA, Assign("b", V("a")), RetE(V("a"))>>), Assign("b", CallE("ff", <<>>)) >>
     \* a function WITHOUT parameters that assigns: the assignment is local to the call all the same
     \o << Fun("ff", <<>>, <<Assign("a", Nm(7)), Assign("b", V("a")), LogA, RetE(V("b"))>>) >>
 
